@@ -431,3 +431,91 @@ def zero_byte_cases():
         ([N("fixed", name="F0", size=0)], "(fixed x)"),
         ([N("record", name="WithF0", fields=[("f", 1), ("g", 1), ("n", 2)]), N("fixed", name="ns.F0", size=0), N("null")], "(record (fixed x) (fixed x) null)"),
     ]
+
+
+def variant_shape_case(rng):
+    """Unions whose branches are containers a Rust enum may hold in a TUPLE variant (array) or a STRUCT variant (record)
+    next to newtype / unit variants (leaves, null, map), always FOLLOWED by something in the datum: later fields of a
+    record, the next element of an enclosing array / map, the next row. Every value of the array branch gets the same
+    number of items (0..3), so that one tuple arity fits all the union values of the datum.
+    -> (nodes (root = node 0), {array node key: item count})"""
+    b = Builder()
+    item = rng.choice(["int", "int", "string", "long", "record", "array", "union", "bytes"])
+    if item == "record":
+        x = b.add(N("int"))
+        it = b.add(N("record", name="ns.Item", fields=[("x", x), ("y", b.add(N("string")))]))
+    elif item == "array":
+        it = b.add(N("array", items=b.add(N("int"))))
+    elif item == "union":
+        it = b.add(N("union", variants=[b.add(N("null")), b.add(N("string"))]))
+    else:
+        it = b.add(N(item))
+    arr = b.add(N("array", items=it))
+    branches = [arr]
+    if rng.random() < 0.6:
+        fs = [("a", b.add(N("int")))]
+        if rng.random() < 0.6:
+            fs.append(("b", b.add(N(rng.choice(["string", "bytes", "double"])))))
+        if rng.random() < 0.3:
+            fs.append(("c", b.add(N("array", items=b.add(N("long"))))))
+        branches.append(b.add(N("record", name=rng.choice(["ns.Rec", "Rec", "a.b.Pair"]), fields=fs)))
+    for x in rng.sample(["null", "int", "string", "map", "boolean", "double"], rng.randint(0, 2)):
+        branches.append(b.add(N("map", values=b.add(N("int")))) if x == "map" else b.add(N(x)))
+    rng.shuffle(branches)
+    u = b.add(N("union", variants=branches))
+    nodes = wrap_root(rng, b, u, rng.choice(["array", "map", "record", "record", "rows"]))
+    return nodes, {arr: rng.choice([0, 1, 1, 2, 2, 3])}
+
+
+def seq_stats(evalue):
+    """evalue (text or parsed): -> (longest, total, n) over the arrays / maps of the value: the item count of the longest
+    one, the sum of all item counts, the number of arrays / maps (the item count of a sequence = the sum over its blocks)"""
+    t = C.parse_sx(evalue)[0] if isinstance(evalue, str) else evalue
+    longest, total, n = 0, 0, 0
+    def walk(x):
+        nonlocal longest, total, n
+        if not isinstance(x, list) or not x:
+            return
+        if x[0] in ("array", "map"):
+            cnt = 0
+            for blk in x[1:]:
+                its = blk[2:]
+                cnt += len(its)
+                for it in its:
+                    walk(it[1] if x[0] == "map" else it)
+            longest, total, n = max(longest, cnt), total + cnt, n + 1
+            return
+        for y in x[1:]:
+            walk(y)
+    walk(t)
+    return longest, total, n
+
+
+def multi_seq_case(rng):
+    """Schemas whose values hold SEVERAL sequences: sibling arrays / maps in a record, arrays nested in arrays, arrays of
+    maps, maps of arrays, arrays of records that hold arrays, unions over arrays -- for the configurations in which
+    max_seq_size is close to the length of the longest one. -> nodes (root = node 0)"""
+    b = Builder()
+    def leaf():
+        return b.add(N(rng.choice(["int", "long", "string", "boolean", "bytes", "double"])))
+    def seq(depth):
+        r = rng.random()
+        inner = leaf() if depth >= 2 or r < 0.5 else seq(depth + 1)
+        if r > 0.85 and depth < 2:
+            inner = b.add(N("record", name="ns.R%d" % len(b.nodes), fields=[("p", seq(depth + 1)), ("q", leaf()), ("r", seq(depth + 1))]))
+        elif r > 0.78:
+            inner = b.add(N("union", variants=[b.add(N("null")), b.add(N("array", items=leaf()))]))
+        return b.add(N("array", items=inner) if rng.random() < 0.6 else N("map", values=inner))
+    shape = rng.choice(["siblings", "siblings", "nested", "rows"])
+    if shape == "siblings":
+        fs = []
+        for i in range(rng.randint(2, 5)):
+            fs.append(("f%d" % i, seq(1) if rng.random() < 0.75 else leaf()))
+        return b.root(N("record", name="Multi", fields=fs))
+    if shape == "nested":
+        k = seq(0)
+        b.nodes[0] = b.nodes[k]
+        # node k stays as an unused copy (keys of the others unchanged)
+        return b.nodes
+    row = b.add(N("record", name="ns.Row", fields=[("a", seq(1)), ("n", leaf()), ("b", seq(1))]))
+    return b.root(N("array", items=row))
